@@ -35,7 +35,7 @@ class Inconclusive(BaseException):
     """solver answered unknown"""
 
 
-class EngineError(Exception):
+class EngineError(BaseException):
     pass
 
 
@@ -43,9 +43,11 @@ CUR = None  # the engine currently executing a path (one per process)
 
 
 class Node:
-    __slots__ = ("cond", "kids", "parent", "done")
+    __slots__ = ("cond", "kids", "parent", "done", "cterm", "cval")
 
     def __init__(self, parent=None):
+        self.cterm = None
+        self.cval = None
         self.cond = None
         self.kids = None
         self.parent = parent
@@ -73,7 +75,10 @@ class Stats:
 
 
 class Engine:
-    def __init__(self, max_decisions=20000, path_seconds=20, solver_timeout_ms=20000):
+    def __init__(self, max_decisions=20000, path_seconds=20, solver_timeout_ms=20000,
+                 max_folded=None):
+        self.max_folded = max_folded if max_folded is not None else 50 * max_decisions
+        self.nfold = 0
         Z = z3()
         self.Z = Z
         self.solver = Z.Solver()
@@ -87,6 +92,7 @@ class Engine:
         self.ndec = 0
         self.vars = []  # (name, kind, term/extra) in creation order of the current path
         self.bounds = {}  # z3 var id -> (lo, hi)
+        self.excl = {}    # z3 var id -> set of excluded values
 
     # ---- solver -------------------------------------------------------------------------
     def _check(self, *extra):
@@ -121,8 +127,10 @@ class Engine:
             self.solver.push()
             self.node = self.root
             self.ndec = 0
+            self.nfold = 0
             self.vars = []
             self.bounds = {}
+            self.excl = {}
             self.eval_model = None
             CUR = self
             rec = {"status": None, "value": None, "exc": None}
@@ -216,6 +224,9 @@ class Engine:
         r, info = self._fold_atom(v.get_id(), op, c, neg)
         if r is not None:
             self.stats.folded += 1
+            self.nfold += 1
+            if self.nfold > self.max_folded:
+                raise Diverged("folded-decision budget of path exhausted")
             return r
         return self.decide(sb.t, info)
 
@@ -249,6 +260,8 @@ class Engine:
                 r = False
             elif lo is not None and lo == hi == c:
                 r = True
+            elif c in self.excl.get(vid, ()):
+                r = False
         if r is not None and neg:
             r = not r
         return r, (vid, op, c, neg)
@@ -271,6 +284,13 @@ class Engine:
                 hi = c - 1 if hi is None else min(hi, c - 1)
         elif truth:
             lo = hi = c
+        else:
+            ex = self.excl.setdefault(vid, set())
+            ex.add(c)
+            while lo is not None and lo in ex:      # shave excluded end points
+                lo += 1
+            while hi is not None and hi in ex:
+                hi -= 1
         self.bounds[vid] = (lo, hi)
 
     def decide(self, t, info=None):
@@ -286,6 +306,9 @@ class Engine:
             folded, info = self._fold(t)
             if folded is not None:
                 self.stats.folded += 1
+                self.nfold += 1
+                if self.nfold > self.max_folded:
+                    raise Diverged("folded-decision budget of path exhausted")
                 return folded
         self.ndec += 1
         self.stats.decisions += 1
@@ -336,8 +359,14 @@ class Engine:
             return term.as_long()
         n = 0
         while True:
-            m = self.model()
-            v = m.eval(term, model_completion=True).as_long()
+            node = self.node
+            if node.kids is not None and node.cterm is not None and node.cterm.eq(term):
+                v = node.cval          # re-execution: same candidate as the first time
+            else:
+                m = self.model()
+                v = m.eval(term, model_completion=True).as_long()
+                if node.kids is None:
+                    node.cterm, node.cval = term, v
             self.stats.forks_concretise += 1
             if self.decide(term == v):
                 return v
